@@ -951,6 +951,51 @@ class Module:
         self.out.append(indent(code, 1))
         self.out.append("")
 
+    # -- T9b: member accessors of an object whose members may be absent (Timing) ------------------------------------------------
+    def translate_member_accessors(self, cls: str, fields: dict[str, str], has_props: list[str], members: list[str]) -> None:
+        """T9b: `has_x` properties (`return self._x is not None`, or `return self.has_y`) and member properties
+        (`value = self._x; if value is None: raise RuntimeError(...); return value`) of a class whose members are optional;
+        `fields` maps the private attribute to the field of the Lean structure `Model.Timing.T`."""
+        def fail(msg, node):
+            raise Untranslatable(f"{cls}: {msg}", node, self.path)
+
+        def prop(name):
+            for n in self.find_class(cls).body:
+                if isinstance(n, ast.FunctionDef) and n.name == name and any(isinstance(d, ast.Name) and d.id == "property" for d in n.decorator_list):
+                    return n, [st for st in n.body if not (isinstance(st, ast.Expr) and isinstance(st.value, ast.Constant))]
+            fail(f"property {name} not found", None)
+        for h in has_props:
+            fn, b = prop(h)
+            if len(b) != 1 or not isinstance(b[0], ast.Return):
+                fail(f"{h}: expected a single return", fn)
+            v = b[0].value
+            if (isinstance(v, ast.Compare) and len(v.ops) == 1 and isinstance(v.ops[0], ast.IsNot) and isinstance(v.comparators[0], ast.Constant)
+                    and v.comparators[0].value is None and ast.unparse(v.left).startswith("self.") and ast.unparse(v.left)[5:] in fields):
+                body = f"!(t.{fields[ast.unparse(v.left)[5:]]}.isNone)"
+            elif isinstance(v, ast.Attribute) and ast.unparse(v.value) == "self" and v.attr in has_props:
+                body = f"{v.attr} t"
+            else:
+                fail(f"{h}: unsupported body {ast.unparse(v)[:60]}", fn)
+            self.out.append(f"/-- generated from `{cls}.{h}` -/")
+            self.out.append(f"@[pygen] def {h} (t : Model.Timing.T) : Bool := {body}")
+            self.out.append("")
+        for mname in members:
+            fn, b = prop(mname)
+            ok = (len(b) == 3 and isinstance(b[0], ast.Assign) and isinstance(b[0].targets[0], ast.Name) and ast.unparse(b[0].value).startswith("self.")
+                  and ast.unparse(b[0].value)[5:] in fields
+                  and isinstance(b[1], ast.If) and not b[1].orelse and ast.unparse(b[1].test) == f"{b[0].targets[0].id} is None"
+                  and len(b[1].body) == 1 and isinstance(b[1].body[0], ast.Raise) and isinstance(b[1].body[0].exc, ast.Call)
+                  and ast.unparse(b[1].body[0].exc.func) in ERROR_FACTORIES
+                  and isinstance(b[2], ast.Return) and ast.unparse(b[2].value) == b[0].targets[0].id)
+            if not ok:
+                fail(f"{mname}: expected `value = self._x; if value is None: raise …; return value`", fn)
+            f_ = fields[ast.unparse(b[0].value)[5:]]
+            err = ERROR_FACTORIES[ast.unparse(b[1].body[0].exc.func)]
+            self.out.append(f"/-- generated from `{cls}.{mname}` -/")
+            self.out.append(f"@[pygen] def member_{mname} (t : Model.Timing.T) : Except PyErr Model.Timing.Arg :=")
+            self.out.append(f"  if t.{f_}.isNone = true then Except.error PyErr.{err} else Except.ok t.{f_}")
+            self.out.append("")
+
     # -- T11: rich comparisons of a value-with-units class (Scalar) ---------------------------------------------------------
     def translate_scalar_compare(self, cls: str, kinds: dict[str, str]) -> None:
         """T11: `__eq__`, `__lt__`, `__le__`, `__gt__`, `__ge__` of a class holding `.value` and `.units`, over the abstract
